@@ -293,6 +293,9 @@ func Generate(seed uint64, prop, tier string) *Plan {
 		if closeHeavy && r.Chance(1, 8) {
 			cp.CloseAgain = r.Range(1, 2)
 		}
+		if prop == "C07" && r.Chance(1, 5) || r.Chance(1, 25) {
+			cp.DupKeep = true
+		}
 		// handler script
 		nt := r.Range(0, 6)
 		for j := 0; j < nt; j++ {
